@@ -351,7 +351,15 @@ pub fn call(env: &mut Env, c: &Value) -> Value {
         }
         "pulling_gauge" => {
             let v = c.get("value").map(fparse).unwrap_or(0.0);
-            mk!(env, c, PGauge, PullingGauge::new(s(c, "name"), s(c, "help"), Box::new(move || v)))
+            // "panic_first": k — the user's closure panics the first k times it is called (a scrape that unwinds)
+            let k = c.get("panic_first").and_then(|x| x.as_u64()).unwrap_or(0) as usize;
+            let calls = std::sync::atomic::AtomicUsize::new(0);
+            mk!(env, c, PGauge, PullingGauge::new(s(c, "name"), s(c, "help"), Box::new(move || {
+                if calls.fetch_add(1, std::sync::atomic::Ordering::SeqCst) < k {
+                    panic!("pulling gauge closure: scripted panic");
+                }
+                v
+            })))
         }
         "desc" => {
             let cm: HashMap<String, String> = pairs(c.get("const")).into_iter().collect();
@@ -392,7 +400,17 @@ pub fn call(env: &mut Env, c: &Value) -> Value {
         }
         // ------------------------------------------------------------ registry
         "register" | "unregister" => {
-            let col = collector_of(env, s(c, "obj"));
+            // "reversed": the call is made with ANOTHER handle for the same collector, one that lists the same descriptors in the
+            // opposite order (a collector is identified by the set of its descriptors)
+            let rev = c.get("reversed").and_then(|x| x.as_bool()).unwrap_or(false);
+            let col: Box<dyn Collector> = match env.get(s(c, "obj")) {
+                Some(Slot::Custom(x)) if rev => {
+                    let mut descs = x.0.descs.clone();
+                    descs.reverse();
+                    Box::new(CustomRef(Arc::new(CustomCollector { descs, families: x.0.families.clone() })))
+                }
+                _ => collector_of(env, s(c, "obj")),
+            };
             match env.get(s(c, "reg")) {
                 Some(Slot::Reg(r)) => res_unit(if op == "register" { r.register(col) } else { r.unregister(col) }),
                 _ => panic!("harness: no registry"),
